@@ -44,3 +44,68 @@ CONTRACTS = [
                      "lens": "len(g1) + len(g2) == 2 * len(ix) + len(_done1)"}},
              ),
 ]
+
+
+# ------------------------------------------------------------------ hypergraphx/generation/random.py (C14): add_random_edge(s)
+# random.sample is havoc within its documented contract (k distinct members of the population), so what is proved holds for every draw.
+RD = "hypergraphx/generation/random.py"
+SZ = "(size if size is not None else order + 1)"
+CONTRACTS += [
+    Contract("add_random_edge@inplace", RD, ["add_random_edge"], properties=["C14"],
+             params={"hg": "Obj[Hypergraph]", "order": "Opt[Int]", "size": "Opt[Int]", "inplace": "Bool", "seed": "Opt[Int]"}, fixed={"inplace": True},
+             requires={"wf": "wf(hg)", "positive": f"implies((order is None) != (size is None), {SZ} >= 1)"},
+             raises={"ValueError": f"(order is not None and size is not None) or (order is None and size is None) or {SZ} > card(V(hg))"},
+             modifies_args={"hg": ["_adj", "_node_metadata", "_edge_list", "_reverse_edge_list", "_weights", "_edge_metadata", "_next_edge_id"]},
+             ensures={"wf": "wf(hg)", "V": "V(hg) == V(old(hg))",
+                      # exactly one hyperedge of the requested size over existing nodes is inserted (or re-inserted), nothing else changes
+                      "E_old": "all(k in E(hg) for k in E(old(hg)))",
+                      "E_new": f"any(strict(e) and len(e) == {SZ} and all(n in V(old(hg)) for n in e) and all((k in E(hg)) == (k in E(old(hg)) or k == e) for k in Tuple) "
+                               "and all(W(hg, k) == W(old(hg), k) and M(hg, k) == M(old(hg), k) for k in E(old(hg)) if k != e) for e in Tuple)",
+                      "NM": "all(NM(hg, n) == NM(old(hg), n) for n in V(hg))", "weighted": "weighted(hg) == weighted(old(hg))"}),
+    Contract("add_random_edge@copy", RD, ["add_random_edge"], properties=["C14"],
+             params={"hg": "Obj[Hypergraph]", "order": "Opt[Int]", "size": "Opt[Int]", "inplace": "Bool", "seed": "Opt[Int]"}, fixed={"inplace": False},
+             result="Obj[Hypergraph]", pure=True,
+             requires={"wf": "wf(hg)", "positive": f"implies((order is None) != (size is None), {SZ} >= 1)"},
+             raises={"ValueError": f"(order is not None and size is not None) or (order is None and size is None) or {SZ} > card(V(hg))"},
+             ensures={"wf": "wf(result)", "V": "V(result) == V(hg)",
+                      "E_old": "all(k in E(result) for k in E(hg))",
+                      "E_new": f"any(strict(e) and len(e) == {SZ} and all(n in V(hg) for n in e) and all((k in E(result)) == (k in E(hg) or k == e) for k in Tuple) "
+                               "and all(W(result, k) == W(hg, k) and M(result, k) == M(hg, k) for k in E(hg) if k != e) for e in Tuple)",
+                      "NM": "all(NM(result, n) == NM(hg, n) for n in V(hg))", "weighted": "weighted(result) == weighted(hg)"}),
+]
+
+NEW = f"(strict(k) and len(k) == {SZ} and all(n in V(old(hg)) for n in k))"
+CONTRACTS += [
+    # the drawn hyperedges are collected in a set until there are num_edges of them (termination is not proved: it needs enough distinct
+    # node sets of that size), then inserted by one add_edges call; for a weighted hypergraph a drawn hyperedge that exists already gains 1
+    Contract("add_random_edges@inplace", RD, ["add_random_edges"], properties=["C14"], options={"listing_positional"},
+             params={"hg": "Obj[Hypergraph]", "num_edges": "Int", "order": "Opt[Int]", "size": "Opt[Int]", "inplace": "Bool", "seed": "Opt[Int]"},
+             fixed={"inplace": True}, locals={"edges": "Set[Tup]"},
+             requires={"wf": "wf(hg)", "positive": f"implies((order is None) != (size is None), {SZ} >= 1)"},
+             raises={"ValueError": "(order is not None and size is not None) or (order is None and size is None)"},
+             may_raise={"ValueError": f"{SZ} > card(V(hg)) and num_edges > 0"},
+             modifies_args={"hg": ["_adj", "_node_metadata", "_edge_list", "_reverse_edge_list", "_weights", "_edge_metadata", "_next_edge_id"]},
+             ensures={"wf": "wf(hg)", "V": "V(hg) == V(old(hg))",
+                      "E_old": "all(k in E(hg) for k in E(old(hg)))",
+                      "E_new": f"all(implies(k in E(hg) and k not in E(old(hg)), {NEW}) for k in Tuple)",
+                      "others": f"all(implies(not {NEW}, W(hg, k) == W(old(hg), k)) for k in E(old(hg)))",
+                      "M_old": "all(M(hg, k) == M(old(hg), k) for k in E(old(hg)))" if False else "all(implies(not " + NEW + ", M(hg, k) == M(old(hg), k)) for k in E(old(hg)))",
+                      "NM": "all(NM(hg, n) == NM(old(hg), n) for n in V(hg))", "weighted": "weighted(hg) == weighted(old(hg))"},
+             invariants={0: {"drawn": f"all({NEW} for k in edges)"}}),
+]
+
+NEWC = NEW.replace("old(hg)", "hg")
+CONTRACTS += [
+    Contract("add_random_edges@copy", RD, ["add_random_edges"], properties=["C14"], options={"listing_positional"},
+             params={"hg": "Obj[Hypergraph]", "num_edges": "Int", "order": "Opt[Int]", "size": "Opt[Int]", "inplace": "Bool", "seed": "Opt[Int]"},
+             fixed={"inplace": False}, locals={"edges": "Set[Tup]"}, result="Obj[Hypergraph]", pure=True,
+             requires={"wf": "wf(hg)", "positive": f"implies((order is None) != (size is None), {SZ} >= 1)"},
+             raises={"ValueError": "(order is not None and size is not None) or (order is None and size is None)"},
+             may_raise={"ValueError": f"{SZ} > card(V(hg)) and num_edges > 0"},
+             ensures={"wf": "wf(result)", "V": "V(result) == V(hg)",
+                      "E_old": "all(k in E(result) for k in E(hg))",
+                      "E_new": f"all(implies(k in E(result) and k not in E(hg), {NEWC}) for k in Tuple)",
+                      "others": f"all(implies(not {NEWC}, W(result, k) == W(hg, k) and M(result, k) == M(hg, k)) for k in E(hg))",
+                      "NM": "all(NM(result, n) == NM(hg, n) for n in V(hg))", "weighted": "weighted(result) == weighted(hg)"},
+             invariants={0: {"drawn": f"all({NEWC} for k in edges)"}}),
+]
